@@ -243,7 +243,8 @@ func (x *Exec) heap(st *State, name, sort string) string {
 		}
 		x.closedness(name, init)
 		n := x.C.freshName(name)
-		st.def(fmt.Sprintf("(declare-const %s %s)", n, sort))
+		// declared for the whole run: the term may be used by another state (old() is evaluated in a clone)
+		x.C.decl(fmt.Sprintf("(declare-const %s %s)", n, sort))
 		st.heaps[name] = n
 		if fr != "full" && strings.HasPrefix(sort, "(Array Int ") {
 			// frame: contents below the recorded allocation frontier are unchanged
